@@ -47,13 +47,37 @@ NA = {
 }
 
 LEVEL = {
- 'C33': ('exploration', 'Seeded search over interleavings of logical clients of the process-global prime sieve, each step checked against an independent prime table and a per-iterator reference model, under ASan/UBSan with libstdc++ container annotations. Sampling of bounded histories (<=64 steps, limits <=3e6): evidence, not proof; right level because the property quantifies over call histories on global state and nothing smaller than running the real code decides it.', '4 (C33)'),
+ 'C13': ('exploration', 'Seeded search over histories of init / re-init / call / move on long-lived LambdaRealDoubleVisitor and LambdaComplexDoubleVisitor objects (interleaved steps of 1-3 objects, failing inits included), each call compared bit-for-bit with a fresh evaluator and, at well-conditioned points, with the CSE-flipped twin and an independent reference evaluator, under ASan/UBSan. Sampling of bounded histories: evidence, not proof; right level because the property quantifies over re-initialisation histories of a stateful object.', '4 (C13)'),
+ 'C18': ('exploration', 'Seeded search over histories of inputs fed to one long-lived Parser / SbmlParser (valid grammar-generated strings with attached input faults: EOF, NUL, flipped byte, duplicated/deleted span, splice, stray parenthesis; convert_xor toggled; failing and succeeding inputs alternating), every outcome compared with a fresh parser and required to be an expression or a SymEngineException, under ASan/UBSan. Decides the reuse clause by sampling and contributes fault-shaped inputs to the safety clause; it is not coverage-guided fuzzing of arbitrary byte strings.', '4 (C18)'),
+ 'C19': ('exploration', 'Seeded search over allocator address-reuse policies (immediate LIFO, delayed FIFO, random, system) and stream chunkings while expression DAGs over every serialisable class are dumped and reloaded (string API and archive templates, DenseMatrix too); oracle eq + str + hash + double bit patterns + sharing restored. The allocator seam is what makes address-keyed sharing bugs reachable (ASan quarantine hides them). Sampling, not proof.', '4 (C19)'),
+ 'C20': ('fault_enumeration', 'Storage-fault injection between dumps and loads: bit flips, byte overwrites, torn writes, lost and misdirected sectors, spliced dumps, and field-targeted damage on the write boundaries recorded by the stream seam (counts, type codes, first-seen flags, sharing keys), loaded under a memory budget; outcome must be an expression that survives str/hash/eq/cmp/eval or a SymEngineException; ASan/UBSan. The space of mutations of valid dumps is sampled, not enumerated exhaustively.', '4 (C20)'),
+ 'C23': ('exploration', 'The factorisation clause only: every polynomial is factored repeatedly under different rand() seed lists served by the link-time randomness seam (gf_factor, gf_zassenhaus, gf_shoup); factors checked by independent GF(p)[x] arithmetic (multiply back, monic, irreducible by Rabin test, distinct), the factor set must be identical under every seed list and entry point, and each call must end within a rand() draw budget. Sampling over (p, f, seeds).', '4 (C23)'),
+ 'C25': ('exploration', 'Seeded search over histories of set/get/from_coo and every implemented CSR operation on a pool of CSR matrices kept in lock step with dense references; independent canonical-format check of the raw arrays plus element-wise comparison after every step; ASan/UBSan. No schedule or fault exists for this property: the simulator contributes the seeded history, the reference model, minimisation and replay.', '4 (C25)'),
+ 'C32': ('exploration', 'Only the clauses that meet a seam: functions that draw random numbers (Pollard p-1/rho, Tonelli-Shanks via nthroot_mod*/powermod*) or consult the process-global sieve are replayed under several rand() seed lists and interleaved with sieve perturbations; brute-force oracles from the definitions, identical results across seeds and sieve states. The pure functions of the property are not covered.', '4 (C32)'),
+ 'C33': ('exploration', 'Seeded search over interleavings of logical clients of the process-global prime sieve (iterators, generate_primes callers, clear / set_clear / set_sieve_size, library clients), each step checked against an independent prime table and a per-iterator reference model, under ASan/UBSan with libstdc++ container annotations. Sampling of bounded histories (<=64 steps, limits <=3e6).', '4 (C33)'),
+ 'C41': ('exploration', 'Deterministic schedule search: real threads run the property\'s operations on shared untouched expressions while an uninstrumented futex scheduler decides, from the seed, who runs next at every atomic access of the thread-safe library (link-time wrap of __tsan_atomic* and __cxa_guard_*; source hooks in the ASan build). Oracles: ThreadSanitizer happens-before reports over the serialised execution, per-thread results equal to a sequential reference, reference-count conservation, unique Dummy indices, deadlock / step-cap liveness; same plans also under ASan/UBSan. Sampling of SC interleavings, not proof.', '4 (C41)'),
 }
 NOTE = {
+ 'C13': 'Trusted: libm, the harness reference evaluator (sim/refeval.h), ASan/UBSan. The value oracle is applied only where all subexpressions are finite and the result is stable under 1e-9 perturbations (tolerance 1e-6); the fresh-evaluator oracle is exact. State after a failed init is not judged. Known finding: CSE changes atan2(e, e) results (root cause in atan2 autoevaluation, pinned by the test suite). LLVM evaluators not covered.',
+ 'C18': 'Trusted: ASan/UBSan. Inputs that could legitimately take unbounded time (towers of powers, special functions of huge arguments) are filtered by a conservative syntactic predicate and not run. Only mutations of grammar-generated strings up to 2500 bytes; arbitrary byte strings (fuzzing) not claimed.',
+ 'C19': 'Trusted: eq/str/hash as equality oracles, ASan. Field-completeness of every save/load pair is sampled, not enumerated; NaN-valued doubles skip the eq oracle; generator avoids inputs on which constructors (not serialization) misbehave (listed in DESIGN.md).',
+ 'C20': 'Trusted: ASan/UBSan, the memory budget (64 MB per request / 512 MB live -> std::bad_alloc). Only mutations of valid dumps are explored; post-load use is str, hash, eq, __cmp__, eval_double as the property lists. DenseMatrix::loads is not covered.',
+ 'C23': 'Covers only the factorisation clause (random choices); the arithmetic clauses are pure and not decided here. p <= 199, degree <= 12 (p = 2: <= 8). Constant rand() streams are not injected.',
+ 'C25': 'Trusted: DenseMatrix operations as reference, eq/expand for value comparison, ASan/UBSan. Matrices up to 8x8, entries numbers and monomials. csr_matmat_pass2 results compared by value only (it neither sorts nor shrinks, as its SciPy original).',
+ 'C32': 'Pure functions of the property (gcd, lcm, gcd_ext, mod/quotient families, mod_inverse, crt, fibonacci, lucas, binomial, factorial, divides, bernoulli, harmonic, legendre/jacobi/kronecker, quadratic_residues, polygonal numbers, perfect powers, nextprime, probab_prime_p) are NOT covered. Arguments bounded (n <= 1e6 plus 40-bit semiprimes, moduli <= 4000).',
  'C33': 'Trusted: the harness sieve of Eratosthenes as reference, ASan/UBSan reporting. Bounds: sieve sizes {1,2,3,4,8,16,32,64} KB, limits <= 3e6, <=5 live iterators. A bounded iterator is allowed to return cached primes beyond its limit (callers test p <= limit).',
+ 'C41': 'Trusted: ThreadSanitizer (bounded per-location history), the uninstrumented scheduler. Sequentially consistent interleavings at atomic-access granularity only (no hardware weak-memory effects); WITH_SYMENGINE_RCP=yes; operations outside the property list (sieve, series) not run concurrently.',
 }
 TECH = {
+ 'C13': 'deterministic simulation: seeded history on stateful evaluator objects + fresh-object / reference-evaluator oracles, ASan/UBSan, ddmin replay',
+ 'C18': 'deterministic simulation: seeded input history on a reused parser with injected input faults + fresh-parser oracle, ASan/UBSan, ddmin replay',
+ 'C19': 'deterministic simulation: allocator seam (address-reuse policies) + stream seam around dumps/loads, round-trip oracle, ddmin replay',
+ 'C20': 'deterministic simulation with storage fault injection (bit/byte/torn/lost/misdirected/field-targeted) under a memory budget, ASan/UBSan, ddmin replay',
+ 'C23': 'deterministic simulation: link-time rand() seam replaying each factorisation under many seed lists, independent GF(p) oracle, draw-budget liveness',
+ 'C25': 'deterministic simulation: seeded operation history on mutable CSR matrices in lock step with a dense reference model, ASan/UBSan, ddmin replay',
+ 'C32': 'deterministic simulation: rand() seam + perturbation of the global sieve between calls, brute-force oracles, seed/state independence',
  'C33': 'deterministic simulation: seeded interleaving of cooperative clients over the global sieve + reference model, ASan/UBSan, ddmin replay',
+ 'C41': 'deterministic simulation: seeded scheduler over real threads (parked/released at intercepted atomic accesses and static guards) + ThreadSanitizer + sequential reference, replay by plan',
 }
 
 
